@@ -24,15 +24,33 @@ CodePoints(s, a, b) == [k \in 1..(b - a) |-> s[a + k - 1][1]]   \* text of s[a..
 \* walk the rules of the current state in order: the first rule whose pattern matches the remaining input
 \* (as a text of its own) is selected; a Return rule reached first wins; a back-reference to a group the
 \* entering rule did not capture is an error when that rule is reached.
-\* poss = TRUE selects the possessive matcher of the generated lexers (Regex!PossEnd) instead of backtracking.
-RECURSIVE Scan(_, _, _, _, _, _)
-Scan(rs, k, s, i, grp, poss) ==
+\* groups handed to the entered state: group 0 = the whole match, then every sub-match ("" when unset)
+Groups(s, i, len, caps) ==
+  <<CodePoints(s, i, i + len)>> \o
+  [n \in 1..Len(caps) |-> IF caps[n] = <<0, 0>> THEN <<>> ELSE CodePoints(s, i + caps[n][1] - 1, i + caps[n][2] - 1)]
+
+\* Matching one rule at character index i.  Three matchers:
+\*   backtracking (Regex!BtMatch, the runtime lexer), possessive (Regex!PossEnd, the generated lexers), and an ORACLE:
+\*   a rule whose tree is [op |-> "Oracle"] is looked up in c.oracle, a table recorded from the standard library's regexp for
+\*   lexers whose patterns are beyond Regex.tla (trace validation of realistic lexers): entries [state, groups, tab] with
+\*   tab[rule index][i] = [len (-1: no match), groups].
+OracleLookup(c, name, grp, k, i) ==
+  LET e == CHOOSE e \in 1..Len(c.oracle) : c.oracle[e].state = name /\ c.oracle[e].groups = grp IN c.oracle[e].tab[k][i]
+RuleMatch(c, name, r, k, s, i, grp, poss) ==
+  IF r.tree.op = "Oracle"
+  THEN LET o == OracleLookup(c, name, grp, k, i) IN [len |-> o.len, grps |-> o.groups]
+  ELSE LET E == [s |-> Rest(s, i), grp |-> grp]
+           m == IF poss THEN [e |-> PossEnd(r.tree, E, 1), c |-> NoCaps(r.ncap)] ELSE BtMatch(r.tree, r.ncap, E) IN
+       IF m.e = 0 THEN [len |-> -1, grps |-> <<>>] ELSE [len |-> m.e - 1, grps |-> Groups(s, i, m.e - 1, m.c)]
+
+\* walk the rules of the current state in order (see above); name = the state, for the oracle
+RECURSIVE Scan(_, _, _, _, _, _, _, _)
+Scan(c, name, rs, k, s, i, grp, poss) ==
   IF k > Len(rs) THEN [kind |-> "none"]
   ELSE IF rs[k].act = "return" THEN [kind |-> "return"]
   ELSE IF \E n \in 1..Len(rs[k].backrefs) : rs[k].backrefs[n] + 1 > Len(grp) THEN [kind |-> "badref", k |-> k]
-  ELSE LET E == [s |-> Rest(s, i), grp |-> grp]
-           m == IF poss THEN [e |-> PossEnd(rs[k].tree, E, 1), c |-> NoCaps(rs[k].ncap)] ELSE BtMatch(rs[k].tree, rs[k].ncap, E) IN
-       IF m.e = 0 THEN Scan(rs, k + 1, s, i, grp, poss) ELSE [kind |-> "match", k |-> k, len |-> m.e - 1, caps |-> m.c]
+  ELSE LET m == RuleMatch(c, name, rs[k], k, s, i, grp, poss) IN
+       IF m.len < 0 THEN Scan(c, name, rs, k + 1, s, i, grp, poss) ELSE [kind |-> "match", k |-> k, len |-> m.len, grps |-> m.grps]
 
 \* some rule of the state matches differently under the two semantics on the remaining input (C05's tolerated case)
 RECURSIVE AnyDiff(_, _, _, _)
@@ -41,11 +59,6 @@ AnyDiff(rs, k, s, i) ==
   ELSE IF rs[k].act \in {"return", "include"} THEN AnyDiff(rs, k + 1, s, i)
   ELSE LET E == [s |-> Rest(s, i), grp |-> <<>>] IN
        BtMatch(rs[k].tree, rs[k].ncap, E).e # PossEnd(rs[k].tree, E, 1) \/ AnyDiff(rs, k + 1, s, i)
-
-\* groups handed to the entered state: group 0 = the whole match, then every sub-match ("" when unset)
-Groups(s, i, len, caps) ==
-  <<CodePoints(s, i, i + len)>> \o
-  [n \in 1..Len(caps) |-> IF caps[n] = <<0, 0>> THEN <<>> ELSE CodePoints(s, i + caps[n][1] - 1, i + caps[n][2] - 1)]
 
 NoTok == [name |-> "", from |-> 0, to |-> 0, pos |-> StartPos]
 Res(st, status, tok) == [st |-> st, status |-> status, tok |-> tok, why |-> "", diff |-> FALSE]
@@ -59,7 +72,7 @@ CallM(c, s, st, opt) ==
   IF st.stack = <<>> THEN Res(st, "panic", NoTok)
   ELSE IF st.i > Len(s) THEN Res(st, "eof", [name |-> "EOF", from |-> st.i, to |-> st.i, pos |-> st.pos])
   ELSE LET rs == RulesOf(c, Top(st.stack).name)
-           sc == Scan(rs, 1, s, st.i, Top(st.stack).groups, opt.poss)
+           sc == Scan(c, Top(st.stack).name, rs, 1, s, st.i, Top(st.stack).groups, opt.poss)
            d == opt.track /\ AnyDiff(rs, 1, s, st.i)
        IN IF d THEN WithDiff(Err(st, "tolerated"), TRUE) ELSE
           CASE sc.kind = "return" ->
@@ -73,7 +86,7 @@ CallM(c, s, st, opt) ==
                       j == st.i + sc.len
                       pos2 == Advance(st.pos, s, st.i, j)
                       under == r.act = "pop" /\ Len(st.stack) = 1
-                      stack2 == CASE r.act = "push" -> Append(st.stack, [name |-> r.state, groups |-> Groups(s, st.i, sc.len, sc.caps)])
+                      stack2 == CASE r.act = "push" -> Append(st.stack, [name |-> r.state, groups |-> sc.grps])
                                   [] r.act = "pop" -> PopStack(st.stack)
                                   [] OTHER -> st.stack
                       st2 == [i |-> j, pos |-> pos2, stack |-> stack2]
